@@ -167,4 +167,25 @@ theorem maskSiftLoop_le_cap (X : Sig → Sig × Bool) (unit : Rat → Nat → Na
           subst h
           simp [hk]; omega
 
+/-! ### the documented waveform -/
+
+theorem unitOf_length (cosTurn : Rat → Rat) (n : Nat) (f : Rat) (p i : Nat) : (unitOf cosTurn n f p i).length = n := by
+  simp [unitOf]
+
+theorem waveMask_length (cosTurn : Rat → Rat) (n : Nat) (z amp : Rat) (p i : Nat) :
+    (waveMask cosTurn n z amp p i).length = n := by
+  simp [waveMask, Sig.smul, unitOf]
+
+theorem sval_unitOf (cosTurn : Rat → Rat) (n : Nat) (f : Rat) (p i t : Nat) (ht : t < n) :
+    Sig.sval (unitOf cosTurn n f p i) t = cosTurn (f * (t : Rat) + maskPhase p i) := by
+  simp [Sig.sval, unitOf, ht]
+
+theorem sval_waveMask (cosTurn : Rat → Rat) (n : Nat) (z amp : Rat) (p i t : Nat) (ht : t < n) :
+    Sig.sval (waveMask cosTurn n z amp p i) t = amp * cosTurn (z * (t : Rat) + maskPhase p i) := by
+  simp [Sig.sval, waveMask, Sig.smul, unitOf, ht]
+
+/-- the masks `mask_sift` builds for a layer from the unit masks of the waveform are the waveform masks -/
+theorem layerMask_unitOf (cosTurn : Rat → Rat) (n : Nat) (f a : Rat) (p i : Nat) :
+    layerMask (unitOf cosTurn n) f a p i = waveMask cosTurn n f a p i := rfl
+
 end Mask
